@@ -31,6 +31,7 @@
 //     the real SIS filter (boot / run / wait, own thread) for <steps> steps
 //   -> s0:<label>:<calls> s1:...      label: pred | corrected | normpred (freeze ok, likelihood invalid)
 #include "common.hpp"
+#include <cmath>
 #include <BayesFilters/KFCorrection.h>
 #include <BayesFilters/UKFCorrection.h>
 #include <BayesFilters/SUKFCorrection.h>
@@ -183,12 +184,17 @@ struct HState : public LTIStateModel {
 };
 
 // ---------------------------------------------------------------- beliefs
+// covariances symmetric only up to rounding (what F P F^T + Q leaves behind): three cases out of four carry a one-ulp
+// asymmetry in some off-diagonal entries, so that "untouched" is observable bit for bit (a symmetrisation
+// 0.5 (P + P^T) applied on the failure path changes such a belief and no other)
+static bool g_asym = false;
 static void fillGM(GaussianMixture& b, Rng& r) {
     long n = b.dim, k = b.components;
     for (long c = 0; c < k; ++c) {
         for (long i = 0; i < n; ++i) b.mean(c)(i) = r.dy(4.0);
         MatrixXd B(n, n); for (long j = 0; j < n; ++j) for (long i = 0; i < n; ++i) B(i, j) = r.dy(1.0);
         MatrixXd P = B * B.transpose(); for (long i = 0; i < n; ++i) P(i, i) += 0.5 + 0.125 * c;
+        if (g_asym) for (long j = 0; j < n; ++j) for (long i = 0; i < j; ++i) if ((i + j + c) % 2 == 0) P(i, j) = std::nextafter(P(i, j), 1.0e300);
         b.covariance(c) = P;
         b.weight(c) = -r.pos(0.1, 3.0);
     }
@@ -479,6 +485,7 @@ static std::string fault_case(Toks& t) {
     }
     if (reps < 1 || reps > 8) throw vh::BadArgs("reps");
     Data12 d(seed, n, m, k);
+    g_asym = (seed % 4 != 0);
     g_step = 0;
     if (cls == "kf" || cls == "ukfa" || cls == "ukfg" || cls == "ukfgo" || cls == "sukf") return gauss_case(cls, seed, d, sub, s, reps, alias);
     if (cls == "glik") return glik_case(seed, d, s, reps);
